@@ -60,11 +60,12 @@ def model(shape, dt, data, yf, myf, lim, prog, scen):
     elif shape == "state":
         P += [p1, dict(name="p2", fmt=None, fn="b/(a+b+c)", min=lo, max=hi), dict(name="p3", fmt=None, fn="prev"), dict(drv, fn="p1*(p2+p3)/2+0.01*(t-2000)")]
     elif shape == "agg":
-        spec["interactions"] = [dict(name="mix", pairs={"pa>pa": 1.0, "pa>pb": 0.5, "pb>pa": 0.2, "pb>pb": 2.0})]
+        # transfers and interactions carry the same calibration factors as the parameters (population factor x all-population factor)
+        spec["interactions"] = [dict(name="mix", pairs={"pa>pa": 1.0, "pa>pb": 0.5, "pb>pa": 0.2, "pb>pb": 2.0}, yf=None if yf == 1.0 else {"pa>pb": yf}, myf=None if myf == 1.0 else myf)]
         P += [p1, dict(name="foi", fmt=None, fn="SRC_POP_AVG(prev, mix, alive)", min=lo, max=hi), dict(drv, fn="foi*p1+0.02")]
         # open-ended flow references in a model with a transfer between the populations (every flow out of a / into b, the transfer included)
         P += [dict(name="outa", fmt=None, fn="a:"), dict(name="inb", fmt=None, fn=":b+0*a")]
-        spec["transfers"] = [dict(name="mig", units="rate", pairs={"pa>pb": 0.1})]
+        spec["transfers"] = [dict(name="mig", units="rate", pairs={"pa>pb": 0.1}, yf=None if yf == 1.0 else yf, myf=None if myf == 1.0 else myf)]
     elif shape == "flowout":
         P += [dict(p1, name="drv", fmt="probability", targ=True, min=lo, max=hi, myf=myf), dict(name="inc", fmt=None, fn="a:b*2"), dict(name="inc2", fmt=None, fn="inc+b:c"), dict(name="outa", fmt=None, fn="a:"), dict(name="inb", fmt=None, fn=":b+0*a")]  # outa / inb: open-ended references (every flow out of a / into b, transfers between populations included)
     spec["links"].append(["a", "b", "drv"])
